@@ -65,5 +65,16 @@ TEXT = {
         "transformGeneric (portable Go, bounds-checked model) returns the same four buffers; per bit lane and for arbitrary words this is 81 rounds of the bit-pair round function, which on valid encodings is the Curl-P truth table. "
         "Tie: Gen.CurlAsm.program (parsed from the .s on every run) = the proved program; build-tag selection and the portable wrapper are regenerated facts.",
    note="Trusted: Lean kernel; the machine semantics in AsmSem.lean (tagged pointers, conservative flags) — validated by running the interpreter and the real assembly on the same states in every check; the assembler, linker and CPU; extractor+harness."),
+ "C11": dict(ref="DESIGN.md §5 C11",
+   technique="Lean 4 proof of the bit-plane lane test and of mining with the least sufficient zero count for an abstract monotone score; regenerated source snapshot of the (repaired) zero-count computation; differential correspondence incl. rounding-boundary targets",
+   text="partial (floating point): proved for all bit planes that checkStateTrits returns exactly the first lane with >= n trailing zero trits; for ANY ordered score type with a monotone score function, mining with the least z whose score reaches the target returns "
+        "only nonces meeting the target, passes none over, and serves trivially low targets from the first nonce. The Go code computes that z with the very expression Score uses (fix F7/F8); the float expression's monotonicity is checked exhaustively at run time. "
+        "Score's z is compared against an independent Lean BLAKE2b/b1t6/Curl-P-81 pipeline.",
+   note="Trusted: Lean kernel; extractor+harness; IEEE-754 behaviour of math.Pow and division (hypothesis, exercised); iota.go curl/bct and trinary (external); goroutine scheduling is C13's subject. F7/F8 were found by this check and fixed in /repo."),
+ "C12": dict(ref="DESIGN.md §5 C12",
+   technique="Lean 4 proof (positional numerals for toInt incl. uint64 no-overflow, exact integer logarithm, bit-plane lane test soundness and no-pass-over for all planes, sequential mining) with regenerated constants/translated tritToUint/source snapshots and differential correspondence through exported internals",
+   text="Lean theorems: maxHash = 3^243, uint64Radix = 3^40; toInt = base-3 value + 1 with no uint64 overflow; Score = min(floor(floor(3^243/h)/len), 2^64-1); sufficientTrailingZeros = least s with 3^s >= len*t (wrapping loop = exact loop); "
+        "for ALL 64-lane plane states and 8 <= len*t < 2^64: a lane returned by checkStateTrits has floor(3^243/h) >= len*t (hence Score >= t) and a lane with floor(3^243/h) > len*t is never passed over; single-worker mining returns the first accepting block.",
+   note="Trusted: Lean kernel; extractor+harness; BLAKE2b and iota.go curl/bct (external; re-scored through an independent Lean pipeline); math/big. Observation outside the property's quantifier: the overflow guard of sufficientTrailingZeros admits products in [2^64, 2^64+len-2] (documented in DESIGN.md)."),
 }
 PENDING = {}
